@@ -1180,6 +1180,38 @@ class Interp:
             return X.add(to_node(args[0]), X.mul(to_node(args[1]), X.I))
         if isinstance(f, FuncRef):
             self.trace_calls.append((fr.mod.where(e) if e is not None else '', f.node.name))
+            memo_deco = None
+            for d_ in f.node.decorator_list:
+                dn_ = ast.unparse(d_.func if isinstance(d_, ast.Call) else d_).split('.')[-1]
+                if dn_ in ('lru_cache', 'cache'):
+                    memo_deco = d_
+            if memo_deco is not None:
+                # functools memoisation is part of the function's behaviour: equal arguments give the very same object back
+                def hk(v_):
+                    c_ = concrete(v_)
+                    if c_ is not None: return ('c', c_)
+                    if isinstance(v_, Node): return ('n', v_.uid)
+                    if isinstance(v_, (str, bool, type(None))): return ('v', v_)
+                    if isinstance(v_, tuple): return ('t',) + tuple(hk(x_) for x_ in v_)
+                    return ('id', id(v_))
+                key_ = (id(f.node), tuple(hk(a_) for a_ in args), tuple(sorted((k_, hk(v_)) for k_, v_ in kwargs.items())))
+                table = self.__dict__.setdefault('_functools_memo', {})
+                maxsize = None
+                if isinstance(memo_deco, ast.Call):
+                    for kw_ in memo_deco.keywords:
+                        if kw_.arg == 'maxsize' and isinstance(kw_.value, ast.Constant): maxsize = kw_.value.value
+                    if memo_deco.args and isinstance(memo_deco.args[0], ast.Constant): maxsize = memo_deco.args[0].value
+                elif ast.unparse(memo_deco).split('.')[-1] == 'lru_cache':
+                    maxsize = 128
+                if key_ in table:
+                    return table[key_]
+                r_ = self.call(f.mod, f.node, args, kwargs, self_obj=f.bound, owner=f.cls if f.bound is not None else None, closure=f.closure)
+                if isinstance(maxsize, int):
+                    mine = [k_ for k_ in table if k_[0] == id(f.node)]
+                    while len(mine) >= max(maxsize, 1):
+                        table.pop(mine.pop(0))
+                table[key_] = r_
+                return r_
             return self.call(f.mod, f.node, args, kwargs, self_obj=f.bound, owner=f.cls if f.bound is not None else None, closure=f.closure)
         if isinstance(f, Opaque):
             return Opaque(f.name + '()')
